@@ -111,17 +111,20 @@ def modelFind (rows : Grp) (keys : List Nat) (qs : List (List Val)) (allowNone a
     Option (List (List Val)) :=
   qs.mapM (fun q => (modelFindOne rows keys allowNone dflt q).map (headOnly allowAll))
 
-/-- what model `m` reports to the group (`allow_none=True, allow_all=True`) -/
-def perModel (g : Grp) (keys : List Nat) (dflt : Val) (q : List Val) (m : Nat) : List Val :=
+/-- what model `m` reports to the group (`allow_none=True, allow_all=True, default=missing`); `none` is the answer
+`[missing]`, where `missing = object()` is private to the call and therefore never the idx of a device (on the
+pinned tree the marker was the CALLER's `default`, which may be a device idx: finding `group-find-default-sentinel`,
+repaired) -/
+def perModel (g : Grp) (keys : List Nat) (q : List Val) (m : Nat) : Option (List Val) :=
   let h := hits (rowsOf g m) keys q
-  if h.isEmpty then [dflt] else h.map some
+  if h.isEmpty then none else some (h.map some)
 
 /-- one search tuple of `GroupBase.find_idx`: (`out_pre` item, missing?) — the item is the concatenation, in
-model order, of the answers of all models whose answer differs from `[default]` (on the pinned tree: the answer of
+model order, of the answers of all models that found something (on the pinned tree: the answer of
 the FIRST such model only — finding `group-find-all-first-model-only`, repaired) -/
 def groupFindOne (g : Grp) (nm : Nat) (keys : List Nat) (dflt : Val) (q : List Val) : List Val × Bool :=
-  let per := (List.range nm).map (perModel g keys dflt q)
-  let found := per.filter (fun l => decide (l ≠ [dflt]))
+  let per := (List.range nm).map (perModel g keys q)
+  let found := per.filterMap id
   if found.isEmpty then ([dflt], true) else (found.flatten, false)
 
 def groupFind (g : Grp) (nm : Nat) (keys : List Nat) (qs : List (List Val)) (allowNone allowAll : Bool)
